@@ -66,6 +66,12 @@ impl Terminal {
         }
     }
 
+    /// Terminal built by the real constructor (history file in the user cache directory).
+    #[cfg(lace_verif)]
+    pub fn verif_new_with_file() -> Self {
+        Self::new()
+    }
+
     /// Feed one key to the line editor. Returns `true` on end of line.
     #[cfg(lace_verif)]
     pub fn verif_key(&mut self, key: Key) -> bool {
